@@ -170,7 +170,7 @@ def sweep(rep, db, tier):
                 rr = replay.run_replay(f'c10_{len(rep.violations) + len(rep.known_hits)}', v['replay_src']); rep.replayed += 1
                 path = rr['path']; repro = rr['reproduced']
             rep.violation(Violation(PROP, v['key'], v['text'], path, repro is True if v['replay_src'] else None))
-        rep.add(Obligation(f'decoder {short}', o['status'], paths=o['paths'], depth=o['depth'], wall_s=o['wall_s']))
+        rep.add(Obligation(f'decoder {short}', o['status'], paths=o['paths'], depth=o['depth'], wall_s=o['wall_s'], accepting_paths=o.get('nontrivial'), compositional=o.get('compositional')))
         if len(rep.samples) < 6: rep.samples.append(f'{short}: {o["paths"]} paths over a symbolic proto message (depth {o["depth"]}, repeated <= {o["mlen"]})')
     return total_paths
 
